@@ -2,7 +2,7 @@
 
 funcs : every function reachable in the (secure, legacy) base environment -- i.e. every native
         and every function of the bundled modules -- called with every tuple of argument kinds
-        (arity <= 2, thorough 3; 14 kinds).  Int payloads are symbolic in [-9, 9] (the edge values
+        (arity <= 2 plus four all-int / string / list kind triples, thorough every triple; 14 kinds).  Int payloads are symbolic in [-9, 9] (the edge values
         0, negative, out of range are solutions of the code's own branch conditions); the other
         kinds are drawn from small pools by symbolic selectors.
 forms : every syntactic operator / indexing / slicing / iteration / spread / destructuring form
@@ -84,6 +84,9 @@ def cells(tier, seed):
             for k1 in KINDS:
                 out.append({"k": "func", "f": n, "kinds": [k1, None]})
             out.append({"k": "func", "f": n, "kinds": [None, "same"]})
+        if np >= 3 and tier == "quick":
+            for ks in (["int", "int", "int"], ["str", "int", "int"], ["list", "int", "int"], ["str", "str", "str"]):
+                out.append({"k": "func", "f": n, "kinds": ks})
         if np >= 3 and tier != "quick":
             for k1 in KINDS:
                 for k2 in KINDS:
